@@ -21,6 +21,10 @@ pub const E1: &[&str] = &[
     "r#try", "'x: loop { break 'x 1; }", "','", "b\"a,b\"", "S { a: 1, b: 2 }.a", "vec![1, 2]", "x.0.1", "a::<B>::C",
     "Foo::<{ 1 + 1 }>::bar()", "if let A | B = x { 1 } else { 2 }", "&mut a", "unsafe { f(a, b) }", "a.b::<C, D>().e",
     "x as fn(A, B) -> C", "self.0", "*self",
+    // `<` directly followed by punctuation, nested qualified paths, arrows and other `>`-bearing tokens inside generic arguments
+    "<&str as T<A, B>>::X", "<<A as B>::C as T<D, E>>::X", "<*const u8 as T<A, B>>::X", "<(A, B) as T<C, D>>::X", "<[u8] as T<A, B>>::X",
+    "<Vec<&u8> as T<A, B>>::X", "pair::<Option<fn(u8) -> u8>, u8>()", "f::<&'static str, -1>()", "f::<{ a >= b }, B>()", "x.m::<fn() -> A, B>(c, d)",
+    "<A as T<fn(B) -> C, D>>::X", "f::<A, B>::<C, D>()", "<A as T<B, C>>::f::<D, E>()",
 ];
 
 /// one-level contexts for E2; `@` is the hole
